@@ -162,6 +162,16 @@ func TempDir() string {
 	return d
 }
 
+// NewFile returns an empty read/write file (natively a real file in a scratch directory; in
+// the executor a byte-array model of *os.File supporting Write, ReadAt, Seek(SeekStart), Sync, Close).
+func NewFile() *os.File {
+	f, err := os.CreateTemp(TempDir(), "file")
+	if err != nil {
+		panic(err)
+	}
+	return f
+}
+
 // TouchFile creates the (empty) file; FileExists reports whether it exists. Together with
 // os.Remove they are the whole file-system vocabulary of the executor.
 func TouchFile(path string) {
